@@ -209,6 +209,19 @@ Lemma lost_after_inherited_legacy_refuted :
   /\ (exists n, find_node (report lost_case) 2 = Some n /\ smax (n_total n) = 1).
 Proof. split; eexists; vm_compute; split; reflexivity. Qed.
 
+(* STILL PRESENT (known finding lost-in-inherited-data): a LOST marker in data that starts at depth > 0 - here the
+   data of a forked child, nothing was actually dropped - closes the innermost open call with 1 ns and counts it
+   twice, because user_stack_count was never set to the inherited depth: leaf (one call of 300 ns) gets Calls 2,
+   Total 2 ns, and work's Self absorbs the rest *)
+Definition lost_inherited_case : case :=
+  mkcase 1024 [(10, 1); (20, 2); (30, 3); (40, 4)]
+    [[mkrec EXIT 1 40 1310; mkrec ENTRY 1 20 1400; mkrec ENTRY 2 30 1500; mkrec LOST 0 1 0; mkrec EXIT 2 30 1800;
+      mkrec EXIT 1 20 1900; mkrec EXIT 0 10 2000]].
+Lemma lost_in_inherited_refuted :
+  map (fun n => (n_name n, n_call n, sum (n_total n), sum (n_self n))) (report lost_inherited_case)
+  = [(1, 1, 690, 190); (2, 1, 500, 498); (3, 2, 2, 2); (4, 1, 0, 0)].
+Proof. vm_compute. reflexivity. Qed.
+
 (* report --task before the fix measured open calls until the last EXIT: 200 ns instead of 8000 ns; no EXIT,
    no line.  Now a task's line adds up to the Self times of its rows. *)
 Lemma task_mode_open_legacy_refuted :
@@ -218,6 +231,15 @@ Lemma task_mode_open_legacy_refuted :
   task_line_legacy 1024 killed = (200, 2) /\ task_line_legacy 1024 noexit = (0, 0)
   /\ sumN (map w_self (task_rows 1024 killed)) = 8000
   /\ task_line 1024 killed = (8000, 4) /\ task_line 1024 noexit = (4000, 2).
+Proof. vm_compute. repeat split; reflexivity. Qed.
+
+(* ... and skipped the frames a forked child inherits and never returns from (4ec4e50): child data
+   [EXIT fork; leaf 100 ns; leaf 50 ns], main still open: 150 ns instead of the 340 ns the child ran *)
+Lemma task_mode_inherited_legacy_refuted :
+  let child := [mkrec EXIT 1 30 1310; mkrec ENTRY 1 20 1400; mkrec EXIT 1 20 1500; mkrec ENTRY 1 20 1600;
+                mkrec EXIT 1 20 1650] in
+  task_line_legacy 1024 child = (150, 3) /\ task_line 1024 child = (340, 4)
+  /\ sumN (map w_self (task_rows 1024 child)) = 340.
 Proof. vm_compute. repeat split; reflexivity. Qed.
 
 (* report --diff without colours before the fix: an increase from 100 ns to 300 ns was printed with "-" *)
